@@ -92,6 +92,8 @@ def handler(name_of_ret="{name}", react="t", resume="tail", appends=(), ret="rec
         "list": '["ret" $env.n $frame.id $frame.topic]',
         "bool": "true",
         "none": "null",
+        # a value without a JSON form (a duration): still a return value - the frame is published, its content is `null`
+        "dur": "3sec",
     }[ret]
     if lazy:
         # the appends happen inside the stream the closure returns: they run when the value is collected, not before
@@ -99,7 +101,7 @@ def handler(name_of_ret="{name}", react="t", resume="tail", appends=(), ret="rec
         retexpr = retexpr + ' | each {|x| if $x == "ret" { ' + "; ".join(lazy_stmts) + " }; $x }"
     body.append(retexpr)
     if ret != "none":
-        rk = {"rec": "ret", "str": "ret", "list": "ret", "int": "int", "bool": "bool:true"}[ret]
+        rk = {"rec": "ret", "str": "ret", "list": "ret", "int": "int", "bool": "bool:true", "dur": "null"}[ret]
         o = _out(name_of_ret + (suffix or ".out"), rk, ttl=ttl or "forever", stored=ttl != "ephemeral")
         o["name"], o["suf"] = "", (suffix or ".out")[1:]
         o["ret"] = True
@@ -109,7 +111,7 @@ def handler(name_of_ret="{name}", react="t", resume="tail", appends=(), ret="rec
     script = "$env.n = 0\n$env.p = 0\n{\n" + "".join(f"  {c}\n" for c in cfg) + "  run: {|frame|\n" + "".join(
         f"    {b}\n" for b in body) + "  }\n}\n"
     return dict(_spec(fam="h", react=react, resume=resume, group=sum(1 for o in outs if o["stored"]),
-                      fail_on="t.fail" if fail else "", outs=outs, counter=ret not in ("bool",), pulse=pulse,
+                      fail_on="t.fail" if fail else "", outs=outs, counter=ret not in ("bool", "dur"), pulse=pulse,
                       maxpulse=2 if pulse else 0,
                       cat=cat, slow_on="t.slow" if slow else ""), script=script)
 
@@ -174,6 +176,7 @@ HANDLERS = {
     "h_fail_mid": handler(fail="mid", appends=[A1, A2U]),
     "h_fail_after": handler(fail="after", appends=[A1, A2U]),
     # C06: script-visible isolation
+    "h_dur": handler(appends=[A1], ret="dur"),
     "h_eph_app": handler(appends=[dict(topic="o.a1", ttl="ephemeral"), dict(topic="o.a2")]),
     "h_eph_fail": handler(ttl="ephemeral", fail="before", appends=[A1]),
     "h_lazy": handler(appends=[A1, dict(topic="o.a2")], ret="list", lazy=True),
@@ -260,6 +263,13 @@ def command(values=("r1", "r2"), appends=0, err=None, suffix=None, ttl=None, slo
                       cttl=ttl or "forever", cappends=capp, slow_on="*" if slow else "", cat=cat, interleave=lazy), script=script)
 
 
+def command_module_append():
+    """C19 (modules): a module of the definition whose exported function calls `.append`"""
+    script = ('{\n  modules: {\n    amod: "export def note [tid: string, t: string] { {k: \"v.a1\", tid: $tid, t: $t} | .append p.a1 }"\n  }\n'
+              '  run: {|frame|\n    amod note $frame.id $frame.topic\n    {k: "v.r1", tid: $frame.id, t: $frame.topic}\n  }\n}\n')
+    return dict(_spec(fam="c", recv=["v.r1"], cappends=[_out("p.a1", "v.a1")]), script=script)
+
+
 def command_module():
     """C19 (modules): a definition that brings its own module; the closure calls into it"""
     script = ('{\n  modules: {\n    vmod: "export def tag [x: string] { $\"v.($x)\" }"\n  }\n'
@@ -287,6 +297,7 @@ COMMANDS = {
     "c_suffix": command(values=("r1", "r2"), suffix=".res", ttl=TTL_T),
     "c_slow": command(values=("r1", "r2"), slow=True, tag="s"),
     "c_cat": command(values=("r1",), cat=True),
+    "c_ttl": command(values=("r1", "r2"), ttl=TTL_T),
     "c_lazy": command(values=("r1", "r2", "r3"), lazy=True, tag="z"),
     "c_env": command(values=("r1", "r2"), env=True, tag="e"),
     "c_bad_parse": dict(_spec(fam="c", valid=False), script="{run: {|frame| ( }"),
